@@ -7,7 +7,7 @@ CONSTANTS P = 43
           Nn = 37
           NBits = 7
           Unit = 2
-          Syms = {0, 4, 7}
+          Syms = {0, 7}
           MaxSteps = 3
           DKey = 5
           EDig = 9
